@@ -2,6 +2,7 @@ import Model
 import Proofs.Walk
 import Proofs.Visits
 import Proofs.NoIdleGlobal
+import Proofs.NoIdleBack
 import Proofs.WFCheck
 /-!
 C08 — no eligible working time is left idle.
@@ -151,6 +152,50 @@ theorem no_idle_final_elab (p : RawProj) (h : wfCheck (elaborate p).env = true) 
         (elaborate p).env.onShift r i = true → (elaborate p).env.leaveMark r i = false →
         ((runScenario (elaborate p).env).led.get r i).usage ≠ [] :=
   (no_idle_final _ (wfCheck_sound _ h) (treeCheck_sound _ htr) t r hel hrl htl hs hf).2
+
+/-! ### the ALAP half -/
+
+/-- an effort task allocated to the single leaf resource `r` (no alternative) -/
+theorem eligB_of_single (e : Env) (t r : Nat) (hlf : (e.taskD t).leaf = true) (ha : (e.taskD t).hasAlloc = true)
+    (hm : (e.taskD t).milestone = false) (hpos : 0 < (e.taskD t).effort)
+    (hal : (e.taskD t).alloc = [r]) (halt : (e.taskD t).alt = []) (hrleaf : (e.resD r).leaf = true) : EligB e t r :=
+  ⟨⟨hlf, ha, hm, hpos, fun σ c => by rw [hal, halt]; exact selectBest_single e σ r _ c⟩, hrleaf, by rw [hal, halt]; simp⟩
+
+/-- **C08 for whole projects, backward (ALAP) mode** (`Proofs/VisitsBack`, `Proofs/NoIdleBack`): after scheduling ANY
+    well-formed project, for every backward effort task `t` reported as scheduled with the single selected leaf resource `r`,
+    between any slot `L` in which `t` is booked (in particular the one that holds its end) and the last slot before its
+    deadline — the end it carried when the scheduling loop started (explicit, or inherited from a container), else the
+    earliest `start − gap` of its successors and the project end, all read off the FINAL schedule (`deadlineG`) — every slot in
+    which `r` is on shift and not on leave carries a booking in the final ledger, or a limit refuses it.  (That the task ends
+    no later than this deadline is C04's `task_end_respects_deadline` / `backward_deps_respected`.) -/
+theorem no_idle_final_alap (e : Env) (wf : WF e) (tr : Tree e) (t r : Nat) (hel : EligB e t r)
+    (hs : ((runScenario e).tst t).scheduled = true) (hf : ((runScenario e).tst t).forward = false) :
+    ∀ L, usageOf ((runScenario e).led.get r L).usage t ≠ none →
+      ∀ i, L ≤ i → i ≤ e.idx (deadlineG e (loopStart e) (runScenario e) t) - 1 →
+        e.onShift r i = true → e.leaveMark r i = false →
+        ((runScenario e).led.get r i).usage ≠ [] ∨ Exhausted e (runScenario e) t r i :=
+  (runScenario_doneIdleB e wf tr t r hel
+    (runScenario_scheduled_done e t ⟨hel.el.leaf, hel.el.effort, hel.el.nomile⟩ hs) hf).2
+
+/-- … and for an unlimited resource and task the slot is booked -/
+theorem no_idle_final_alap_unlimited (e : Env) (wf : WF e) (tr : Tree e) (t r : Nat) (hel : EligB e t r)
+    (hrl : resLimitIds e r = []) (htl : taskLimitIds e t = [])
+    (hs : ((runScenario e).tst t).scheduled = true) (hf : ((runScenario e).tst t).forward = false) :
+    ∀ L, usageOf ((runScenario e).led.get r L).usage t ≠ none →
+      ∀ i, L ≤ i → i ≤ e.idx (deadlineG e (loopStart e) (runScenario e) t) - 1 →
+        e.onShift r i = true → e.leaveMark r i = false → ((runScenario e).led.get r i).usage ≠ [] := by
+  intro L hL i h1 h2 hon hnl
+  rcases no_idle_final_alap e wf tr t r hel hs hf L hL i h1 h2 hon hnl with h3 | h3
+  · exact h3
+  · exfalso
+    unfold Exhausted at h3
+    rw [hrl, htl] at h3
+    rcases h3 with ⟨_, hm, _⟩ | ⟨_, hm, _⟩ <;> cases hm
+
+/-- one backward task, any start state: the visited slots are `cursor, cursor − 1, …`, none skipped -/
+theorem backward_visits_are_consecutive (e : Env) (t : Nat) (fuel : Nat) (σ : St) (w : Walk) (k : Nat)
+    (hk : k < (walkVisitsB e t fuel σ w).length) : ((walkVisitsB e t fuel σ w)[k]).2.cur = w.cur - k :=
+  walkVisitsB_consecutive e t fuel σ w k hk
 
 /-- what makes "not available" mean "booked": in every state a scenario run ends in, a slot without entries still has room
     (a start-offset reservation or a team levelling never fills a slot by itself) and a marked slot carries an entry -/
